@@ -73,3 +73,22 @@ let () =
              if l = [] then "-" else String.concat "," l in
          reads ^ " | " ^ lst)
     | _ -> "ERR args")
+
+(* C07: mrebuild <src archive hex> <target 0..4> <comp hex|-> <shift hex|-> <skipenc 0|1> <tab>
+   phase "specs": prints cfg tokens + entries token of what the builder gets;
+   the python side then runs mneeds/mbuild on them *)
+let () =
+  register "mrebuildspecs" (fun a -> match a with
+    | [arch; target; comp; shift; skipenc; tab] ->
+      load_table tab;
+      (match open0 (bytes_of_hex arch) with
+       | None -> "OPEN-ERR"
+       | Some ar ->
+         let o = { o_target = n_of_hex target; o_comp = (if comp = "-" then None else Some (n_of_hex comp));
+                   o_shift = (if shift = "-" then None else Some (n_of_hex shift)); o_skip_enc = (skipenc = "1"); o_skip_sig = true } in
+         let specs = rebuild_specs decompress_f ar o in
+         let c = rebuild_cfg ar o specs in
+         let ents = if specs = [] then "-" else String.concat "," (List.map (fun f ->
+           hex_of_bytes f.f_name ^ ":" ^ hex_of_bytes f.f_data ^ ":" ^ hex_of_n f.f_comp ^ ":" ^ hex_of_n f.f_enc) specs) in
+         Printf.sprintf "%s %s %s n 0 2 %s" (hex_of_n c.c_version) (hex_of_n c.c_shift) (if c.c_listfile then "g" else "n") ents)
+    | _ -> "ERR args")
